@@ -113,3 +113,11 @@ func verifCanonical(d Decimal) (Decimal, Decimal, bool) {
 	eq := c.Equal(d)
 	return c, cc, eq
 }
+
+// verifCanonicalPair: the canonical forms of two operands against their equality.
+func verifCanonicalPair(x, y Decimal) (Decimal, Decimal, bool) {
+	cx := x.Canonical()
+	cy := y.Canonical()
+	eq := x.Equal(y)
+	return cx, cy, eq
+}
